@@ -94,3 +94,25 @@ Proof.
   exists 0%nat, [1; 1], 2, 0%nat.
   split; [apply P0, A | split; [exact B | split; [simpl; lia | rewrite E0; exact C]]].
 Qed.
+
+(** rows of the mixing matrix (B betas)ᵀ and individual space shifts sources (B betas)ᵀ built on the basis of ANY branch
+    and strip_col are orthogonal to d for the inner product of the branch *)
+Lemma gen_branches_mixing_space_shifts j d g G1 G2 betas sources k :
+  (S (length betas) <= length d)%nat ->
+  (gen_ortho_pre_0d j d g -> nth j (vscale g d) 0 <> 0 ->
+     inner_0d g (nth k (mixing_matrix (gen_ortho_basis_0d j d g) betas) []) d = 0 /\
+     inner_0d g (nth k (space_shifts sources (mixing_matrix (gen_ortho_basis_0d j d g) betas)) []) d = 0) /\
+  (gen_ortho_pre_1d j d G1 -> nth j (vmul G1 d) 0 <> 0 ->
+     inner_1d G1 (nth k (mixing_matrix (gen_ortho_basis_1d j d G1) betas) []) d = 0 /\
+     inner_1d G1 (nth k (space_shifts sources (mixing_matrix (gen_ortho_basis_1d j d G1) betas)) []) d = 0) /\
+  (gen_ortho_pre_2d j d G2 -> nth j (matvec G2 d) 0 <> 0 ->
+     inner_2d G2 (nth k (mixing_matrix (gen_ortho_basis_2d j d G2) betas) []) d = 0 /\
+     inner_2d G2 (nth k (space_shifts sources (mixing_matrix (gen_ortho_basis_2d j d G2) betas)) []) d = 0).
+Proof.
+  intros Hb. destruct (tie_branches j d g G1 G2) as (E0 & E1 & E2 & P0 & P1 & P2 & _).
+  rewrite E0, E1, E2, P0, P1, P2. exact (ortho_branches_mixing_space_shifts j d g G1 G2 betas sources k Hb).
+Qed.
+
+Example ex_mixing_hyp :
+  (S (length [[1; 2]; [0; 1]]%R) <= length [1; 2; 3]%R)%nat /\ gen_ortho_pre_0d 2 [1; 2; 3] (1/2) /\ nth 2 (vscale (1/2) [1; 2; 3]) 0 <> 0.
+Proof. unfold gen_ortho_pre_0d. simpl. repeat split; try lia; lra. Qed.
